@@ -83,7 +83,12 @@ impl MarkdownEventsReader {
                             }
                         }
                     } else {
-                        self.metadata = Some(text.to_string());
+                        // with CRLF line endings the block arrives as one text event per line
+                        self.metadata = Some(format!(
+                            "{}{}",
+                            self.metadata.take().unwrap_or_default(),
+                            text
+                        ));
                     }
                 }
                 Code(text) => {
